@@ -19,7 +19,12 @@ def render():
         out.append(f"| {e['id']} | {e['property']} | `{e['commit']}` | {cell(e['what'])} |")
     out += ['', '**Recorded as known findings** (not small or not safe to repair here)', '',
             '| id | property | what fails |', '|----|----------|-----------|']
+    seen = set()
     for e in d['findings']:
+        key = (e['id'], e['property'], e['what'])       # one finding may be listed under several match signatures
+        if key in seen:
+            continue
+        seen.add(key)
         out.append(f"| {e['id']} | {e['property']} | {cell(e['what'])} |")
     return '\n'.join(out)
 
